@@ -915,6 +915,9 @@ class Engine:
         if isinstance(op, (ast.Is, ast.IsNot)):
             r = self.identical(a, b)
             yield ret(z3.Not(r) if isinstance(op, ast.IsNot) else r)
+        elif isinstance(op, (ast.Eq, ast.NotEq)) and (hasattr(a, "pyvc_eq") or hasattr(b, "pyvc_eq")):
+            r = a.pyvc_eq(self, b) if hasattr(a, "pyvc_eq") else b.pyvc_eq(self, a)
+            yield ret(z3.Not(r) if isinstance(op, ast.NotEq) else r)
         elif isinstance(op, (ast.Eq, ast.NotEq)):
             m = self.eq_model(a, b)
             if m is not None:
